@@ -357,6 +357,15 @@ static void del_by(var self, int method) {
     case ALLOC_RAW: break;
   }
   
+#if CELLO_ALLOC_CHECK == 1
+  /* Objects on the stack, in static storage or inside a container are not
+  ** deleted: refuse before the destructor has released anything they own */
+  if (self isnt NULL and header(self)->alloc isnt (var)AllocHeap) {
+    dealloc(self);
+    return;
+  }
+#endif
+  
   dealloc(destruct(self));
   
 }
